@@ -151,7 +151,7 @@ def run_backends(ctx, tier, seed, kinds):
     """-> (confirmed [(key, violation, detail)], coverage dict, inconclusive list)"""
     nat = ctx.native()
     confirmed = []; inconclusive = []; samples = []; many_cache = {}
-    stats = {'programs': 0, 'answers_judged': 0, 'z3_queries': 0, 'z3_seconds': 0.0, 'disagreements': 0}
+    stats = {'programs': 0, 'answers_judged': 0, 'z3_queries': 0, 'z3_seconds': 0.0, 'disagreements': 0, 'hangs': 0}
     for kind in kinds:
         okind = {'stable_counting': 'stable', 'stable_nogood': 'stable', 'models_nogood': 'models'}.get(kind, kind)
         plist = programs(okind if kind == okind else 'stable', tier, seed)
@@ -173,11 +173,14 @@ def run_backends(ctx, tier, seed, kinds):
                 if backend == 'hybrid_rew' and len(names) > 10: continue
                 sort = ['none', 'lexi', 'alphanum'][(pi + len(proc)) % 3]
                 # several hundred models: the optimised build of the same library (the nogood search is quadratic in the number of models)
+                if stats['hangs'] >= 2: continue          # two confirmed hangs are evidence enough; every further one would cost minutes
                 out = (ctx.native(release=True) if many else nat).call({'cmd': 'sem_text', 'text': txt, 'backend': backend, 'proc': proc, 'sort': sort}, timeout=120)
                 if out.get('timeout'):
-                    # no answer within two minutes: before this counts as a hang, the optimised build gets ten minutes (a loaded machine must not raise an alarm)
-                    out = ctx.native(release=True).call({'cmd': 'sem_text', 'text': txt, 'backend': backend, 'proc': proc, 'sort': sort}, timeout=600)
+                    # no answer within two minutes: before this counts as a hang, the optimised build gets another three minutes (a loaded machine must not raise
+                    # an alarm; measured: the slowest call of the unchanged tree takes 1.3 s optimised)
+                    out = ctx.native(release=True).call({'cmd': 'sem_text', 'text': txt, 'backend': backend, 'proc': proc, 'sort': sort}, timeout=180)
                     stats['slow_answers'] = stats.get('slow_answers', 0) + 1
+                    if out.get('timeout'): stats['hangs'] += 1
                 if 'result' not in out:
                     # a hang or a panic on a well-formed ADF is itself a violation ("an empty result, not an error")
                     confirmed.append(('%s:%s:%s:%s' % (backend, proc, sort, hashlib.sha1(txt.encode()).hexdigest()[:12]),
@@ -205,7 +208,7 @@ def run_backends(ctx, tier, seed, kinds):
 
 def replay_backend(ctx, v):
     out = ctx.native(release=bool(v.get('release'))).call({'cmd': 'sem_text', 'text': v['text'], 'backend': v['backend'], 'proc': v['proc'], 'sort': v['sort']}, timeout=120)
-    if out.get('timeout'): out = ctx.native(release=True).call({'cmd': 'sem_text', 'text': v['text'], 'backend': v['backend'], 'proc': v['proc'], 'sort': v['sort']}, timeout=600)
+    if out.get('timeout'): out = ctx.native(release=True).call({'cmd': 'sem_text', 'text': v['text'], 'backend': v['backend'], 'proc': v['proc'], 'sort': v['sort']}, timeout=180)
     if 'result' not in out: return 'reproduced', out
     names, acs, _ = T.parse(v['text'])
     got = as_declared(names, out)
